@@ -48,7 +48,13 @@ func (m *MonC11) OnLog(w *World, e *LogEntry) {
 			}
 		}
 	case "mq_req":
-		if s, ok := m.closeStep[e.CID]; ok && e.CID != "" && e.Step > s {
+		// (in the step of the close itself too, when the close is that step's only
+		// stimulus: whatever is requested then is requested by the disposal)
+		sameStep := false
+		if s, ok := m.closeStep[e.CID]; ok && e.Step == s && e.T > m.closeT[e.CID] && s < len(w.Script) && w.Script[s].K == "close" && !w.Race {
+			sameStep = true
+		}
+		if s, ok := m.closeStep[e.CID]; ok && e.CID != "" && (e.Step > s || sameStep) {
 			if strings.HasPrefix(e.Subject, "access.") || strings.HasPrefix(e.Subject, "call.") || strings.HasPrefix(e.Subject, "auth.") {
 				m.viols = append(m.viols, Violation{Property: "C11", Class: "request_for_closed_connection", Step: e.Step, T: e.T, Conn: w.ActorOf(e.CID),
 					Message: fmt.Sprintf("%s was requested at step %d on behalf of connection a%d, which closed at step %d", e.Subject, e.Step, w.ActorOf(e.CID), s)})
